@@ -171,6 +171,26 @@ fn histories(tier: Tier) -> Vec<History> {
         }
         seqs = next;
     }
+    // concurrent administrators: one of them changes the group on its own device WITHOUT propagating, the other
+    // changes it too, then the definitions meet (issuer + 10 = "not propagated before the next event")
+    let a_side = vec![
+        REvent::AddUser { group: 0, key: 2, enabled: false },
+        REvent::AddUser { group: 0, key: 3, enabled: true },
+        REvent::AddRight { group: 0, entity: "*".into(), own: true, all: false },
+        REvent::AddUserAdmin { group: 0, key: 2, enabled: true },
+    ];
+    let b_side = vec![
+        REvent::AddRight { group: 0, entity: "ns.P".into(), own: false, all: true },
+        REvent::AddUser { group: 0, key: 3, enabled: false },
+        REvent::AddGroupWith { entity: "ns.Q".into(), own: true, all: false, key: 3 },
+        REvent::AddUserAdmin { group: 0, key: 3, enabled: true },
+    ];
+    for x in &a_side {
+        for y in &b_side {
+            res.push(History { template: 0, events: vec![first.0.clone(), x.clone(), y.clone()], by: vec![0, 10, 1] });
+            res.push(History { template: 0, events: vec![first.0.clone(), y.clone(), x.clone()], by: vec![0, 11, 0] });
+        }
+    }
     res
 }
 
@@ -293,14 +313,27 @@ async fn explore(
     }
     for (i, ev) in h.events.iter().enumerate() {
         let date = tick(4 * (i as i64 + 1));
-        let by = h.by.get(i).copied().unwrap_or(0);
+        let by_raw = h.by.get(i).copied().unwrap_or(0);
+        let (by, held) = (by_raw % 10, by_raw >= 10);
         let acc = u.apply_event(&mut r1, ev, by, date).await?;
         out.transitions += 1;
         out.count(if acc { if by == 0 { "event-accepted" } else { "event-by-second-admin-accepted" } } else { "event-refused" });
-        if acc {
+        if acc && held {
+            out.count("event-held-back(concurrent-administrators)");
+        }
+        if acc && !held {
             // the other of the two devices A and B follows incrementally
             if let Err(e) = transfer_room_def(&u.peers[1 - by], &u.peers[by], r1.id).await {
                 import_err.push((if by == 0 { "import-incremental".into() } else { "import-incremental-from-second-admin".into() }, e));
+            }
+            out.transitions += 1;
+        }
+    }
+    // concurrent administrators: the two devices finally exchange what the other has not seen
+    if h.by.iter().any(|b| *b >= 10) {
+        for (dst, src) in [(0usize, 1usize), (1, 0)] {
+            if let Err(e) = transfer_room_def(&u.peers[dst], &u.peers[src], r1.id).await {
+                import_err.push((format!("import-of-concurrent-definition-{}", NAMES[dst]), e));
             }
             out.transitions += 1;
         }
